@@ -1151,6 +1151,216 @@ where
     }
 }
 
+// ---------------------------------------------------------------------------------------
+// Linear response of the uniform fluid (driven by C19, part `uniform-response`)
+// ---------------------------------------------------------------------------------------
+/// relative tolerance of the response comparisons, times the conditioning of d mu / d rho
+const TOL_RESP: f64 = 1e-7;
+
+/// inverse of a small dense matrix (Gauss-Jordan with partial pivoting); None if singular
+fn invert(a: &Array2<f64>) -> Option<Array2<f64>> {
+    let n = a.nrows();
+    let mut m = a.clone();
+    let mut inv = Array2::<f64>::eye(n);
+    for c in 0..n {
+        let piv = (c..n).max_by(|&i, &j| m[[i, c]].abs().partial_cmp(&m[[j, c]].abs()).unwrap())?;
+        if !(m[[piv, c]].abs() > 0.0) || !m[[piv, c]].is_finite() {
+            return None;
+        }
+        for k in 0..n {
+            m.swap([c, k], [piv, k]);
+            inv.swap([c, k], [piv, k]);
+        }
+        let d = m[[c, c]];
+        for k in 0..n {
+            m[[c, k]] /= d;
+            inv[[c, k]] /= d;
+        }
+        for r in 0..n {
+            if r != c {
+                let f = m[[r, c]];
+                for k in 0..n {
+                    m[[r, k]] -= f * m[[c, k]];
+                    inv[[r, k]] -= f * inv[[c, k]];
+                }
+            }
+        }
+    }
+    Some(inv)
+}
+
+/// For a uniform profile without external potential the exact answers of the implicit-derivative
+/// routines are bulk properties: dN_i/dmu_k = V (d rho_i / d mu_k)_T = V [(V_b dmu/dN)^-1]_ik,
+/// dN_i/dp = V x_i / (dp/drho), dN_i/dT = -V x_i (dp/dT) / (dp/drho), V = integral(1) with the
+/// grid's own weights; the Henry coefficients of a pore without potential are V/(RT) and the
+/// ideal-gas enthalpy of adsorption is RT.
+fn response_clause<D>(case: &Case, b: &Bulk, obs: &mut Obs, profile: DFTProfile<D, Model>)
+where
+    D: Dimension + RemoveAxis + 'static,
+    D::Larger: Dimension<Smaller = D>,
+    D::Smaller: Dimension<Larger = D>,
+    <D::Larger as Dimension>::Larger: Dimension<Smaller = D::Larger>,
+{
+    let shape = grid_shape(&profile.grid);
+    let ones: Array<f64, D> = filled(&shape, &vec![1.0; shape[0]]);
+    let v_int = profile.integrate(&Dimensionless::from_reduced(ones)).to_reduced();
+    let nc = b.rho_comp.len();
+    let st = &b.state;
+    let vb = st.volume.to_reduced();
+    let dmu_drho = st.dmu_dni(Contributions::Total).to_reduced() * vb;
+    let Some(drho_dmu) = invert(&dmu_drho) else {
+        obs.discard("singular d mu / d rho of the bulk");
+        return;
+    };
+    // conditioning of the bulk matrix (Frobenius norms) and of the compressibility
+    let fro = |m: &Array2<f64>| m.iter().map(|x| x * x).sum::<f64>().sqrt();
+    let cond = fro(&dmu_drho) * fro(&drho_dmu) * b.assoc_cond;
+    let dp_drho = st.dp_drho(Contributions::Total).to_reduced();
+    let dp_dt = st.dp_dt(Contributions::Total).to_reduced();
+    let rho_tot: f64 = b.rho_comp.sum();
+    // ideal-gas value T / rho of dp/drho: near the spinodal dp/drho is a small difference
+    let cond_p = (b.t / dp_drho.abs()).max(1.0);
+    if !(cond < 1e4 && cond_p < 1e3) || !cond.is_finite() {
+        obs.class("bulk close to a stability limit (response ill-conditioned): skipped");
+        return;
+    }
+    obs.class(if dp_drho > 0.0 { "mechanically stable bulk" } else { "mechanically unstable bulk" });
+    let tol = TOL_RESP * cond.max(cond_p);
+    let x = &st.molefracs;
+    let akey = if case.spec.has_association() { "assoc" } else { "plain" };
+    let mut nontrivial = false;
+    // ---- dN/dmu ----
+    match profile.dn_dmu() {
+        Ok(m) => {
+            let m = m.to_reduced();
+            let scale = drho_dmu.iter().fold(0.0f64, |a, v| a.max(v.abs())) * v_int;
+            for i in 0..nc {
+                for k in 0..nc {
+                    let want = v_int * drho_dmu[[i, k]];
+                    note(&format!("uniform dn_dmu deviation / (tol scale) [{akey}]"), (m[[i, k]] - want).abs() / (tol * scale));
+                    obs.close_scaled(&format!("uniform fluid: dn_dmu[{i},{k}] = V (d rho_{i}/d mu_{k})_T of the bulk"), m[[i, k]], want, tol, scale);
+                }
+            }
+            // non-trivial: the excess part of d mu / d rho is visible (ideal gas: T / rho_i on the diagonal)
+            if (0..nc).any(|i| (dmu_drho[[i, i]] - b.t / b.rho_comp[i]).abs() > 1e-3 * b.t / b.rho_comp[i]) {
+                nontrivial = true;
+            }
+        }
+        Err(e) => obs.inconclusive(format!("dn_dmu of the uniform profile: {}", e.to_string().chars().take(60).collect::<String>())),
+    }
+    // ---- dN/dp ----
+    match profile.dn_dp() {
+        Ok(v) => {
+            let v = v.to_reduced();
+            let scale = v_int / dp_drho.abs();
+            for i in 0..nc {
+                let want = v_int * x[i] / dp_drho;
+                note(&format!("uniform dn_dp deviation / (tol scale) [{akey}]"), (v[i] - want).abs() / (tol * scale));
+                obs.close_scaled(&format!("uniform fluid: dn_dp[{i}] = V x_{i} / (dp/drho) of the bulk"), v[i], want, tol, scale);
+            }
+        }
+        Err(e) => obs.inconclusive(format!("dn_dp of the uniform profile: {}", e.to_string().chars().take(60).collect::<String>())),
+    }
+    // ---- dN/dT ----
+    match profile.dn_dt() {
+        Ok(v) => {
+            let v = v.to_reduced();
+            let scale = v_int * (dp_dt.abs() + rho_tot) / dp_drho.abs();
+            for i in 0..nc {
+                let want = -v_int * x[i] * dp_dt / dp_drho;
+                note(&format!("uniform dn_dt deviation / (tol scale) [{akey}]"), (v[i] - want).abs() / (tol * scale));
+                obs.close_scaled(&format!("uniform fluid: dn_dt[{i}] = -V x_{i} (dp/dT)/(dp/drho) of the bulk"), v[i], want, tol, scale);
+            }
+        }
+        Err(e) => obs.inconclusive(format!("dn_dt of the uniform profile: {}", e.to_string().chars().take(60).collect::<String>())),
+    }
+    // ---- Henry coefficients and ideal-gas enthalpy of adsorption of the empty pore ----
+    if profile.dft.m().iter().all(|&m| m == 1.0) {
+        let pore = PoreProfile {
+            profile,
+            grand_potential: None,
+            interfacial_tension: None,
+        };
+        let h = (pore.henry_coefficients() * (RGAS * st.temperature)).to_reduced();
+        for i in 0..nc {
+            note("uniform henry deviation (relative)", (h[i] / v_int - 1.0).abs());
+            obs.close(&format!("empty pore: henry_coefficients[{i}] R T = integral(1)"), h[i], v_int, 1e-10, 0.0);
+        }
+        let hads = (pore.ideal_gas_enthalpy_of_adsorption() / (RGAS * st.temperature)).into_value();
+        for i in 0..nc {
+            obs.close(&format!("empty pore: ideal_gas_enthalpy_of_adsorption[{i}] = R T"), hads[i], 1.0, 1e-9, 0.0);
+        }
+        obs.class("henry (m = 1 segments)");
+    }
+    if nontrivial {
+        obs.nontrivial();
+    }
+}
+
+pub fn check_response(case: &Case, obs: &mut Obs) {
+    let g = &case.grid;
+    obs.class(g.class());
+    obs.class(case.spec.label());
+    obs.class(format!("n={}", case.spec.n()));
+    if case.spec.has_association() {
+        obs.class("assoc");
+    }
+    if g.kind == GridKind::Periodical2 || g.kind == GridKind::Periodical3 {
+        obs.class(if g.angles.iter().any(|a| (a - 90.0).abs() > 5.0) { "oblique cell" } else { "nearly rectangular cell" });
+    }
+    let Some(bulk) = build_bulk_with(&case.spec, &case.state, obs, None) else { return };
+    if !(bulk.assoc_cond < ASSOC_COND_MAX) {
+        obs.class("association beyond f64 conditioning: skipped");
+        return;
+    }
+    let grid = g.build();
+    let shape = grid_shape(&grid);
+    match g.kind.dim() {
+        1 => {
+            let rho = bulk_density::<Ix2>(&bulk, &shape);
+            response_clause(case, &bulk, obs, DFTProfile::<Ix1, Model>::new(grid, &bulk.state, None, Some(&rho), case.lanczos));
+        }
+        2 => {
+            let rho = bulk_density::<Ix3>(&bulk, &shape);
+            response_clause(case, &bulk, obs, DFTProfile::<Ix2, Model>::new(grid, &bulk.state, None, Some(&rho), case.lanczos));
+        }
+        _ => {
+            let rho = bulk_density::<ndarray::Ix4>(&bulk, &shape);
+            response_clause(case, &bulk, obs, DFTProfile::<Ix3, Model>::new(grid, &bulk.state, None, Some(&rho), case.lanczos));
+        }
+    }
+}
+
+/// generator of the response part: as `decode`, smaller grids (every case runs n + 2 GMRES solves)
+pub fn decode_response(g: &mut Gen) -> Case {
+    let grid = gen_grid(g, &KINDS, 1024, 48, 16);
+    let max_comp = if grid.kind.dim() == 1 { 3 } else { 2 };
+    let mut spec = gen_model(
+        g,
+        &GenCfg {
+            families: FUNCTIONALS.to_vec(),
+            min_comp: 1,
+            max_comp,
+        },
+    );
+    acyclic_gc(&mut spec);
+    let mut grid = grid;
+    limit_work(&mut grid, &spec);
+    let state = gen_state(g, spec.n());
+    let lanczos = [None, Some(1), Some(2)][g.index(3)];
+    Case {
+        grid,
+        spec,
+        state,
+        lanczos,
+        wrapped: false,
+    }
+}
+
+pub fn response_worst() -> Value {
+    serde_json::to_value(&*WORST.lock().unwrap()).unwrap()
+}
+
 fn part() -> PartCfg {
     let env = |k: &str, d: u32| std::env::var(k).ok().and_then(|s| s.parse().ok()).unwrap_or(d);
     PartCfg {
